@@ -333,6 +333,41 @@ theorem rawImg_step (c : Cfg R) (cd : KVCodec K V) (s : St R) (op : TyOp K V) (h
   | restored => simpa [tstep, encOp, step] using h
   | reopen => simpa [tstep, encOp, step] using h
 
+/-- The typed keys of a list of stored keys. -/
+def decKeys (cd : KVCodec K V) (ks : List Key) : List K := ks.filterMap cd.kdec
+
+theorem mem_decKeys {cd : KVCodec K V} (hk : KeyRT cd) {ks : List Key} (himg : RawImg cd ks) (k : K) :
+    k ∈ decKeys cd ks ↔ ∃ kb ∈ ks, cd.kenc k = some kb := by
+  simp only [decKeys, List.mem_filterMap]
+  constructor
+  · rintro ⟨kb, hkb, hd⟩
+    obtain ⟨k0, hk0⟩ := himg kb hkb
+    have := hk k0 kb hk0
+    rw [this] at hd
+    exact ⟨kb, hkb, (Option.some.inj hd) ▸ hk0⟩
+  · rintro ⟨kb, hkb, he⟩
+    exact ⟨kb, hkb, hk k kb he⟩
+
+theorem nodup_decKeys {cd : KVCodec K V} (hk : KeyRT cd) :
+    ∀ {ks : List Key}, RawImg cd ks → ks.Nodup → (decKeys cd ks).Nodup ∧ (decKeys cd ks).length = ks.length := by
+  intro ks
+  induction ks with
+  | nil => intro _ _; exact ⟨List.nodup_nil, rfl⟩
+  | cons kb ks ih =>
+    intro himg hnd
+    obtain ⟨k0, hk0⟩ := himg kb (List.mem_cons_self ..)
+    have hd := hk k0 kb hk0
+    have himg' : RawImg cd ks := fun r hr => himg r (List.mem_cons_of_mem _ hr)
+    have hnd' := (List.nodup_cons.mp hnd)
+    obtain ⟨ih1, ih2⟩ := ih himg' hnd'.2
+    have hcons : decKeys cd (kb :: ks) = k0 :: decKeys cd ks := by simp [decKeys, List.filterMap_cons, hd]
+    rw [hcons]
+    refine ⟨List.nodup_cons.mpr ⟨?_, ih1⟩, by simp [ih2]⟩
+    intro hmem
+    obtain ⟨kb', hkb', he⟩ := (mem_decKeys hk himg' k0).mp hmem
+    rw [hk0] at he
+    exact hnd'.1 ((Option.some.inj he) ▸ hkb')
+
 theorem rawImg_final (c : Cfg R) (cd : KVCodec K V) (ops : List (TyOp K V)) :
     ∀ s : St R, RawImg cd s.rawKeys → RawImg cd (tfinal c cd s ops).rawKeys := by
   induction ops with
